@@ -153,14 +153,14 @@ func impliedTupleType(dec *msgpack.Decoder) (cty.Type, error) {
 		return cty.EmptyTuple, nil
 	}
 
-	etys := make([]cty.Type, l)
+	etys := make([]cty.Type, 0, preallocLen(l))
 
 	for i := 0; i < l; i++ {
 		ety, err := impliedType(dec)
 		if err != nil {
 			return cty.DynamicPseudoType, err
 		}
-		etys[i] = ety
+		etys = append(etys, ety)
 	}
 
 	return cty.Tuple(etys), nil
